@@ -97,7 +97,7 @@ def rule_open(m):
         else:
             res.fail(Finding('F-IO.OPEN', f.display(), 'verifyStreamOpened shape', f.where(),
                              'verifyStreamOpened must throw std::runtime_error exactly when !stream.is_open()'))
-    res.require_sites(20, 'IO routines')
+    res.require_sites(10, 'IO routines')
     return res
 
 
@@ -167,7 +167,7 @@ def rule_checked_read(m):
                                      '`%s` is filled by %s at %s but used at %s without the success of that read having '
                                      'been tested: on a file cut inside a record the stale / indeterminate value becomes '
                                      'an edge' % (vname, kind, f.nloc(call), f.nloc(u))))
-    res.require_sites(20, 'uses of read buffers')
+    res.require_sites(10, 'uses of read buffers')
     return res
 
 
@@ -239,7 +239,7 @@ def rule_wrap(m):
                                 else:
                                     res.ok(dict(function=disp, size=f.expr_text(dn), type=x.get('t'), at=f.nloc(dn))
                                            if len(res.samples) < 6 else None, fn=disp)
-    res.require_sites(20, 'size computations from file-derived indices')
+    res.require_sites(10, 'size computations from file-derived indices')
     return res
 
 
@@ -310,7 +310,7 @@ def rule_sign(m):
         else:
             res.ok(dict(function=disp, parser=lam.unit.decl(parses[0]['callee'])['name'], check='negative values rejected'),
                    fn=disp)
-    res.require_sites(10, 'default index parsers')
+    res.require_sites(5, 'default index parsers')
     return res
 
 
@@ -332,13 +332,13 @@ def _implied_any(t, pol):
 
 
 # ------------------------------------------------------------------------------------------------
-def rule_grow(m):
+def rule_grow(m, which='both'):
     """Text loader: graph and name table grow together to 1+largest index before the subscripts/insertion."""
     res = RuleResult('F-IO.GROW', 'the text loader grows graph and name table together to 1 + max(index) (in size_t) under '
                                   '`max >= getSize()` before the raw subscripts of the name table and the insertion of the '
                                   'same line; the binary loaders grow to index + 1 under `index >= getSize()`; nothing '
                                   'else resizes them')
-    for f in io_functions(m, LOADER_TEXT):
+    for f in (io_functions(m, LOADER_TEXT) if which in ('both', 'text') else []):
         res.sites += 1
         tt = Terms(f)
         disp = f.display()
@@ -403,7 +403,7 @@ def rule_grow(m):
         else:
             res.ok(dict(function=disp, schema='L = max(v1,v2); if (L >= g.getSize()) { g.resize(L+1); names.resize(L+1); } '
                         'names[v1]; names[v2]; g.addEdge(v1, v2, ...)') if len(res.samples) < 3 else None, fn=disp)
-    for f in io_functions(m, LOADER_BIN):
+    for f in (io_functions(m, LOADER_BIN) if which in ('both', 'binary') else []):
         res.sites += 1
         tt = Terms(f)
         disp = f.display()
@@ -447,7 +447,7 @@ def rule_grow(m):
         else:
             res.ok(dict(function=disp, schema='if (v >= g.getSize()) g.resize(v+1) for both indices; g.addEdge(v1, v2, ...)')
                    if len(res.samples) < 6 else None, fn=disp)
-    res.require_sites(20, 'loaders')
+    res.require_sites(20 if which == 'both' else 10, 'loaders')
     return res
 
 
@@ -483,7 +483,10 @@ def rule_schema_binary(m):
             swaps = [n for n in f.nodes if n['k'] == 'CallExpr' and 'callee' in n and
                      f.unit.decl(n['callee'])['tname'] == IO + 'swapBytes']
             why = None
-            if len(xfers) != 1 or len(swaps) != 1:
+            if len(xfers) == 1 and len(swaps) == 0:
+                why = 'the value is transferred without any byte swap: on a big-endian host the bytes are not in the little-endian ' \
+                      'file order (the other primitive swaps, so files written and read on such a host do not round-trip either)'
+            elif len(xfers) != 1 or len(swaps) != 1:
                 why = 'expected exactly one stream.%s and one swapBytes call' % method
             else:
                 a = [tt.t(x) for x in xfers[0]['args']]
@@ -659,7 +662,7 @@ def rule_schema_binary(m):
                     res.fail(Finding('F-IO.SCHEMA.bin', key.replace(NS, ''), 'default codec', u.fmt_loc(p['loc']),
                                      'the default label codec is `%s`, expected `%s`: writer and loader defaults would not '
                                      'agree on the label bytes' % (defs, want)))
-    res.require_sites(40, 'schema facts')
+    res.require_sites(20, 'schema facts')
     return res
 
 
@@ -689,7 +692,7 @@ def rule_schema_text(m):
                     if not any(f.nodes[x]['k'] == 'ContinueStmt' for x in then):
                         why = 'a comment line is not skipped'
         if cm is None:
-            why = why or 'no comment-character test on the first character of the line'
+            why = why or 'expected a comment-character test `line[0] == <char>` followed by continue'
         comment = cm
         # tokeniser call and default delimiters
         tok = [n for n in f.nodes if n['k'] == 'CallExpr' and 'callee' in n and
@@ -728,7 +731,24 @@ def rule_schema_text(m):
                             order.append((n['i'], n['decls'][0]))
                 adds = [n for n in f.nodes if n['k'] == 'CXXMemberCallExpr' and 'callee' in n and
                         f.unit.decl(n['callee'])['name'] == 'addEdge']
-                if len(adds) != 1 or len(vdecl) != 2:
+                mcalls = [n for n in f.nodes if n['k'] == 'CXXOperatorCallExpr' and 'callee' in n and
+                          f.unit.decl(n['callee']).get('op') == '()' and n.get('args') and tt.t(n['args'][0])[0] == 'var' and
+                          'std::function<unsigned int' in f.unit.decl(tt.t(n['args'][0])[1]).get('ctype', '')]
+                same_expr = False
+                if len(mcalls) == 2:
+                    a0 = set(f.ancestors(mcalls[0]['i']))
+                    for a in f.ancestors(mcalls[1]['i']):
+                        if a in a0:
+                            an = f.nodes[a]
+                            if an['k'] in ('CallExpr', 'CXXMemberCallExpr', 'CXXOperatorCallExpr', 'BinaryOperator') or \
+                                    (an['k'] in ('CXXConstructExpr', 'CXXTemporaryObjectExpr') and not an.get('listinit')):
+                                same_expr = True
+                            break
+                if same_expr:
+                    why = why or 'the two vertex-name mappers are evaluated as operands of one expression (`%s`): their order is ' \
+                                 'unspecified, so a compiler that evaluates right to left numbers the second name of a line first' % (
+                                     f.expr_text(a)[:70])
+                elif len(adds) != 1 or len(vdecl) != 2:
                     why = why or 'expected two vertex-name mappings and one insertion per line'
                 else:
                     aa = [tt.t(a) for a in adds[0]['args']]
@@ -792,6 +812,10 @@ def rule_schema_text(m):
                         chains.append((n['i'], [tt.t(o) for o in ops], n['i'] in body))
             headers = [c for c in chains if not c[2]]
             recs = [c for c in chains if c[2]]
+            if comment is None and headers:
+                res.broken('F-IO.SCHEMA.text: the loader\'s comment character is not known, so the header line written by %s cannot be '
+                           'compared with it' % disp)
+                continue
             for h in headers:
                 s = h[1][0] if h[1] else ('none',)
                 if not (s[0] == 'str' and comment and s[1].startswith(comment) and s[1].endswith('\n') and s[1].count('\n') == 1):
@@ -868,7 +892,7 @@ def rule_schema_text(m):
         else:
             res.fail(Finding('F-IO.SCHEMA.text', f.display(), 'delegation', f.where(),
                              'loadTextEdgeList does not forward (fileName, fromString) to the name loader'))
-    res.require_sites(40, 'text schema facts')
+    res.require_sites(20, 'text schema facts')
     return res
 
 
@@ -978,7 +1002,7 @@ def rule_tokeniser_access(m):
                     res.sites += 1
                     res.fail(Finding('F-IO.TOK', f.display(), 'unchecked string access ' + cd['name'], f.nloc(n['i']),
                                      'std::string::%s has a non-empty precondition that a blank line violates' % cd['name']))
-    res.require_sites(10, 'string accesses')
+    res.require_sites(5, 'string accesses')
     return res
 
 
